@@ -17,6 +17,7 @@ import (
 	"io"
 	"os"
 	"os/exec"
+	"path/filepath"
 	"strings"
 	"sync"
 	"syscall"
@@ -210,19 +211,41 @@ func c14rpChild(in Sx) Sx {
 	if err != nil {
 		rp = L(N(1), c14ErrCode(err))
 	}
-	return L(built.L[0], built.L[1], rp)
+	cw := L()
+	if in.L[3].IsTrue() {
+		cw = c14ChrootCwd(in.L[1].Str(), filepath.Join("/", in.L[2].Str()))
+	}
+	return L(built.L[0], built.L[1], rp, cw)
+}
+
+// chroot(root); chdir(p); getcwd(): the kernel's own "as if root were /" (the worker leaves the
+// nested chroot through its saved descriptor)
+func c14ChrootCwd(root, p string) Sx {
+	if err := unix.Chroot(root); err != nil {
+		return L(N(1), c14ErrCode(err))
+	}
+	unix.Chdir("/")
+	if err := unix.Chdir(p); err != nil {
+		return L(N(1), c14ErrCode(err))
+	}
+	wd, err := syscall.Getwd()
+	if err != nil {
+		return L(N(1), c14ErrCode(err))
+	}
+	return L(N(0), S(wd))
 }
 
 // ---------------------------------------------------------------- generator
 var c14rpNames = []string{"a", "b", "c", "d", "l", "m"}
 
-func c14rpTarget(r *Rng, dirs []string) string {
+func c14rpTarget(r *Rng, root string, dirs []string) string {
 	switch r.Intn(10) {
 	case 0:
 		return Pick(r, []string{"/", ".", "..", "/o", "/o/d", "../o", "../../o/f", "/r", "l", "m", "/nonexistent/x"})
-	case 1:
+	case 1, 2:
 		if len(dirs) > 0 {
-			return Pick(r, dirs) // absolute path of an existing directory
+			// an existing directory: its path inside root (absolute as seen by a process chroot-ed there)
+			return "/" + strings.TrimPrefix(strings.TrimPrefix(Pick(r, dirs), strings.TrimSuffix(root, "/")), "/")
 		}
 	}
 	n := 1 + r.Intn(3)
@@ -253,7 +276,7 @@ func c14rpTarget(r *Rng, dirs []string) string {
 }
 
 // ops building a tree below root (and an "outside" area /o when root is not "/")
-func c14rpTree(r *Rng, root string, n int) (ops []Sx, links int) {
+func c14rpTree(r *Rng, root string, n int) (ops []Sx, links int, linkPaths []string) {
 	mkdir := func(p string) { ops = append(ops, L(N(5), S(p), N(0755))) }
 	file := func(p, content string) {
 		ops = append(ops, L(N(9), S(p), Bool(true), N(0644), N(0), S(content)))
@@ -286,8 +309,17 @@ func c14rpTree(r *Rng, root string, n int) (ops []Sx, links int) {
 		case x < 48:
 			file(p, "S:"+p)
 		default:
-			ops = append(ops, L(N(7), S(c14rpTarget(r, dirs)), S(p)))
+			t := c14rpTarget(r, root, dirs)
+			if len(linkPaths) > 0 && r.Chance(25) {
+				// a link to a link (as seen from inside root), sometimes followed by ".."
+				t = Pick(r, linkPaths)
+				if r.Chance(40) {
+					t += "/.."
+				}
+			}
+			ops = append(ops, L(N(7), S(t), S(p)))
 			links++
+			linkPaths = append(linkPaths, "/"+strings.TrimPrefix(strings.TrimPrefix(p, strings.TrimSuffix(root, "/")), "/"))
 		}
 	}
 	return
@@ -323,11 +355,15 @@ func c14GenRootPath(g *Gen) {
 	for i := 0; i < n; i++ {
 		r := g.Rng
 		root := Pick(r, []string{"/", "/r", "/r", "/r/s"})
-		ops, links := c14rpTree(r, root, 4+r.Intn(10))
+		ops, links, linkPaths := c14rpTree(r, root, 4+r.Intn(10))
 		follow := r.Chance(65)
-		in := L(L(ops...), S(root), S(c14rpPath(r)), Bool(follow))
+		path := c14rpPath(r)
+		if len(linkPaths) > 0 && r.Chance(30) {
+			path = Pick(r, linkPaths) + Pick(r, []string{"", "/..", "/../" + Pick(r, c14rpNames), "/" + Pick(r, c14rpNames)})
+		}
+		in := L(L(ops...), S(root), S(path), Bool(follow))
 		out := kinds[0x1403](in)
-		if !g.Thorough() && len(out.L) == 3 && len(out.L[2].L) == 2 && out.L[2].L[0].Int() == 1 && out.L[2].L[1].Int() == 999 {
+		if !g.Thorough() && len(out.L) == 4 && len(out.L[2].L) == 2 && out.L[2].L[0].Int() == 1 && out.L[2].L[1].Int() == 999 {
 			// "too many links" after 256 passes over a path that GROWS with every pass costs the
 			// extracted model tens of seconds: the quick tier keeps only the cases whose link
 			// targets are single components (the path cannot grow); the thorough tier runs all,
@@ -343,7 +379,20 @@ func c14GenRootPath(g *Gen) {
 			}
 		}
 		g.EmitWith(0x1403, in, out, links >= 2, fmt.Sprintf("rootpath follow=%v", follow))
-		if len(out.L) == 3 && len(out.L[2].L) == 2 {
+		if len(out.L) == 4 && len(out.L[2].L) == 2 {
+			if follow && out.L[2].L[0].Int() == 0 && len(out.L[3].L) == 2 {
+				// how often RootPath agrees with the kernel's chroot resolution (directories only)
+				if out.L[3].L[0].Int() == 0 {
+					want := filepath.Join(root, out.L[3].L[1].Str())
+					if want == out.L[2].L[1].Str() {
+						g.classes["rootpath=chroot"]++
+					} else {
+						g.classes["rootpath<>chroot"]++
+					}
+				} else {
+					g.classes["rootpath-ok-but-chroot-errno"]++
+				}
+			}
 			if out.L[2].L[0].Int() == 0 {
 				g.classes["rootpath-ok"]++
 			} else {
